@@ -52,6 +52,13 @@ fn deep_inverse_cdf<K: Float, T: Float, S: ContinuousCDF<K, T>>(s: &S, p: T) -> 
     (high + low) / two
 }
 
+/// statrs panics (unwraps its own domain errors) when extreme parameters push an intermediate value out of the
+/// domain of its special functions (gamma/beta with subnormal or astronomically large arguments); such a
+/// failure is an error value of the language, not a failure of the interpreter
+fn guarded<X>(f: impl FnOnce() -> X) -> Option<X> {
+    std::panic::catch_unwind(std::panic::AssertUnwindSafe(f)).ok()
+}
+
 #[derive(Debug, Clone)]
 pub(crate) struct XContinuousDistributionType;
 
@@ -463,7 +470,8 @@ pub(crate) fn add_contdist_cdf<W, R, T>(
             let a1 = xraise!(eval(&args[1], ns, &rt)?);
             let d0 = to_native!(a0, XContinuousDistribution);
             let f1 = to_primitive!(a1, Float);
-            let ret = xraise!(XValue::float(d0.cdf(*f1), &rt)?);
+            let Some(v) = guarded(|| d0.cdf(*f1)) else { return xerr(ManagedXError::new("numeric failure in the distribution function", rt)?); };
+            let ret = xraise!(XValue::float(v, &rt)?);
             Ok(ManagedXValue::new(ret, rt)?.into())
         }),
     )
@@ -480,7 +488,8 @@ pub(crate) fn add_contdist_pdf<W, R, T>(
             let a1 = xraise!(eval(&args[1], ns, &rt)?);
             let d0 = to_native!(a0, XContinuousDistribution);
             let f1 = to_primitive!(a1, Float);
-            let ret = xraise!(XValue::float(d0.pdf(*f1), &rt)?);
+            let Some(v) = guarded(|| d0.pdf(*f1)) else { return xerr(ManagedXError::new("numeric failure in the distribution function", rt)?); };
+            let ret = xraise!(XValue::float(v, &rt)?);
             Ok(ManagedXValue::new(ret, rt)?.into())
         }),
     )
@@ -500,7 +509,7 @@ pub(crate) fn add_contdist_quantile<W, R, T>(
             if *f1 > 1.0 || *f1 < 0.0 {
                 return xerr(ManagedXError::new("quantile must be between 0 and 1", rt)?);
             }
-            let ret = d0.quantile(*f1);
+            let Some(ret) = guarded(|| d0.quantile(*f1)) else { return xerr(ManagedXError::new("numeric failure in the distribution function", rt)?); };
             if !ret.is_finite() {
                 return xerr(ManagedXError::new("value out of bounds", rt)?);
             }
